@@ -59,6 +59,23 @@ func c01SizeLimit(r *Run) {
 			good := (b.Op == token.GTR && yK && ky == k) || (b.Op == token.LSS && xK && kx == k) ||
 				(b.Op == token.GEQ && yK && ky == k+1) || (b.Op == token.LEQ && xK && kx == k+1)
 			r.Check(good, rule, fmt.Sprintf("%s: size guard %s", name, render(b)), b.Pos(), "quantity > MaxByteSize", "the guard must refuse exactly the sizes above the limit (an item of exactly 16777215 bytes is valid): "+render(b))
+			// the quantity compared is the payload's byte length: one length/size term, plus the two
+			// header bytes of a localized string and nothing else
+			q := b.X
+			if xK {
+				q = b.Y
+			}
+			if ls, okL := linIn(w, fn, q); okL {
+				wantK := ""
+				if name == "NewLocalizedStrItem" {
+					wantK = " + 2"
+				}
+				plain := !strings.Contains(ls, " + ") && !strings.Contains(ls, " - ") && !strings.Contains(ls, "·")
+				if wantK != "" {
+					plain = strings.HasSuffix(ls, wantK) && strings.Count(ls, " + ") == 1 && !strings.Contains(ls, "·") || strings.HasPrefix(ls, "2 + ") && strings.Count(ls, " + ") == 1
+				}
+				r.Check(plain, rule, fmt.Sprintf("%s: the guarded quantity is the payload length", name), b.Pos(), ls, "the size guard compares "+ls+", which is not the payload's byte length"+map[bool]string{true: " (text bytes + 2)", false: ""}[wantK != ""])
+			}
 			// and the true side must be the refusing side
 			if good {
 				refuses := false
